@@ -506,13 +506,18 @@ def file_header(ctx):
     # provenance: f.read(SEGY_FILE_HEADER_BYTES) directly after open(<source>, 'rb'), no seek
     name = U(s.value)
     defs = [n for n in ast.walk(f.node) if isinstance(n, ast.Assign) and U(n.targets[0]) == name]
+    if not defs and isinstance(s.value, ast.Call):
+        defs = [s.stmt]          # the bytes are read in place: buffer[lo:hi] = handle.read(n)
     ok = False
     if defs and isinstance(defs[0].value, ast.Call) and U(defs[0].value.func).endswith('.read') and defs[0].value.args:
         ln = TB.const_eval(P, f.module, defs[0].value.args[0])
         w = parent(defs[0])
         seeks = [c for c in ast.walk(w) if isinstance(c, ast.Call) and isinstance(c.func, ast.Attribute) and c.func.attr == 'seek'] \
             if isinstance(w, ast.With) else [1]
-        first = isinstance(w, ast.With) and w.body and w.body[0] is defs[0]
+        # it is the first read on the freshly opened handle
+        first = isinstance(w, ast.With) and w.body and w.body[0] is defs[0] and \
+            sum(1 for c in ast.walk(w) if isinstance(c, ast.Call) and isinstance(c.func, ast.Attribute) and
+                c.func.attr in ('read', 'readinto', 'readline')) == 1
         rb = isinstance(w, ast.With) and any('rb' in U(it.context_expr) and 'filename' in U(it.context_expr) for it in w.items)
         ok = ln == hi - lo and not seeks and first and rb
     if ok:
